@@ -28,6 +28,7 @@ type Case struct {
 	QuietAdvance bool
 	Settle       int // extra ticks (with scheduling freedom, no new requests) before the final drain
 	CrashBetween int // crash between steps with probability 1/CrashBetween
+	ExtraTicks   int // after each step's tick, 0..ExtraTicks further ticks at the same clock value
 	Prime        int // up to Prime promises are created (deterministically, no faults) before the timeline starts
 	Setup        func(s *Sim)
 	PerStep      func(s *Sim, step int)
@@ -135,7 +136,7 @@ func RunCase(d D, c *Case, dir string) *Sim {
 			s.Submit(c.Gen.Req(s.Now))
 		}
 		s.step(d, c)
-		if d.OneIn(c.CrashBetween, "crashbetween") {
+		if s.crashAllowed() && d.OneIn(c.CrashBetween, "crashbetween") {
 			s.Crash()
 		}
 	}
@@ -148,7 +149,7 @@ func RunCase(d D, c *Case, dir string) *Sim {
 
 func (s *Sim) step(d D, c *Case) {
 	if !c.QuietAdvance || s.InFlight() == 0 {
-		dt := c.Dts[d.Int(0, len(c.Dts)-1, "dt")]
+		dt := c.Dts[d.Uni(len(c.Dts), "dt")]
 		if dt < 0 {
 			nd := NextDeadline(s.Snaps[s.CurSnap()], s.Now)
 			switch {
@@ -165,6 +166,9 @@ func (s *Sim) step(d D, c *Case) {
 		s.Advance(dt)
 	}
 	s.Tick()
+	for k := d.Int(0, c.ExtraTicks, "extraticks"); k > 0; k-- {
+		s.Tick()
+	}
 }
 
 // RunCampaign is the body shared by all simulator property tests.
@@ -206,7 +210,8 @@ func RunCampaign(t *testing.T, c Campaign) {
 			stats.Nontriv(sig, sampleOf(s))
 		}
 		for _, v := range vs {
-			if !fatal[v.Prop] {
+			if !fatal[v.Prop] && os.Getenv("VERIF_FATAL_ALL") == "" {
+				stats.Class("seen-violation-of-other-property:" + v.Prop + "-" + v.Code)
 				continue // judged by that property's own check
 			}
 			if v.Key != "" && known[v.Key] {
